@@ -597,18 +597,18 @@ _extend("C04",
     scope="js_parser.go toAST 'Map locals to parts' (topLevelSymbolToParts: link following, the alias entries for merged symbols, NSExportPartIndex); graph.go AddPartToFile overlay / TopLevelSymbolToParts / GenerateSymbolImportAndUse / GenerateRuntimeSymbolImportAndUse; linker.go scanImportsAndExports: createWrapperForFile (step 4), createExportsForFile deps+uses, the SymbolCallUses loop, the const-value skip, the local-dependency loop with LocalPartsWithUses (step 5), the ImportsToBind loop incl. ReExports, the entry-point part, the import-record loop and the export-star loop (step 6) — modelled on the final tables (Impl/PartDeps.lean) against Spec/PartDeps.lean, tied through the partdeps observation hook on real builds; composed with Impl/Shake.lean",
     assumptions=["partdeps: the hook observes AFTER steps 4-6, so the final SymbolUses are an input and linker-added uses are checked to be among them; Dependencies/LocalPartsWithUses/TopLevelSymbolToParts compared as sets; wf (8 bits + xu) is evaluated by the driver on every real dump and was never violated; aliasOk is a separate hypothesis of soundness that real builds can violate (see open)"])
 
-# scope (C15): the parser's scope analysis (declare / hoist / lookup) (held back until the model follows fix 984c8f5: block function past `with`)
-_HELD("C15",
+# scope (C15): the parser's scope analysis (declare / hoist / lookup)
+_extend("C15",
     lean_modules=["EsbuildModel.Props.C15Scopes", "EsbuildModel.Props.C15Redecl", "EsbuildModel.Props.C15Lookup", "EsbuildModel.Props.C15WithPin"],
     theorems=_thms("Scopes", "hoisted_tree_wellformed parser_tree_slots_separate_visible sibling_scopes_declare_disjoint_symbols "
                    "redeclaration_error_implies_early_error no_early_error_no_redeclaration_error redeclaration_errors_iff_early_error_partial "
                    "lookup_agrees_with_spec_partial lookup_agrees_with_spec_partial_follow "
                    "pinned_symbol_pins_merge_target with_pin_reaches_follow_partial var_in_with_body_flags_chain flagged_symbol_flags_chain with_reference_flags_chain hoisted_var_arguments_pins_variable"),
     kernels=[("scope", 30000, 600000)],
-    open=["Scopes.with_pin_reaches_follow: proved per walk / per reference for the whole link chain under ChainsEnd (no link cycle) and NoPassing (no catch parameter / `arguments` of the same name on the way); open: NoPassing (needs a pigeonhole lemma for the loop bound) and the lift to the final symbol table (links added by later walks and by relinkFns / lowerClass); not refuted (490 000 cases, programs in Props/C15WithPin.lean)",
+    open=["Scopes.with_pin_reaches_follow: proved per walk / per reference for the whole link chain under ChainsEnd only (no link cycle; the NoPassing side condition is gone, Lemmas/ScopesChains.lean has the pigeonhole argument); open: the lift to the final symbol table (links added by later walks of hoistSymbols and by relinkFns / lowerClass); not refuted (560 000 cases, programs in Props/C15WithPin.lean)",
           "Scopes.lookup_agrees_with_spec (every program of the fragment: var in nested blocks, Annex B block functions, classes, declarations of `arguments`): stated in Props/C15Lookup.lean under p.earlyError = false, dupBlockFnL = false, blockFnClashL = false; proved for flat programs only; the full statement is evaluated by checkProps on every `core` case of the kernel (0 counterexamples under the three hypotheses; each hypothesis is a reproduced esbuild/Node difference: known findings c15-scope-*)",
           "Scopes.redeclaration_errors_iff_early_error for non-flat programs: stated in Props/C15Redecl.lean under moduleFnVarClash = false, argumentsClashL = false, catchFnClashL [] = false (each forced by a program with an early error that esbuild accepts: observations, esbuild's output is valid); direction error -> early error proved for every program, iff proved for flat programs"],
-    scope="internal/js_parser/js_parser.go: pushScopeForParsePass / popScope, declareSymbol + canMergeSymbols (whole table, non-TS), the arguments step of parseFn, the use-strict and class strictness steps, prepareForVisitPass (ESM strictness, hoistSymbols in full incl. sloppy block functions and the CommonJS symbols), pushScopeForVisitPass, findSymbol (with / eval flags, unbound symbols), the class name scope + lowerClass inner-name merge, the block-function relinking of visitStmts, labels, incl. the MustNotBeRenamed loops of the two with/arguments fix commits in hoistSymbols and findSymbol — against Spec/JsScopes.lean (VarDeclaredNames / LexicallyDeclaredNames / early errors / Annex B.3.2-B.3.4 / ResolveBinding). The kernel compares the whole scope tree, symbol table (kind, name, link, MustNotBeRenamed), reference list and sorted error list, on generated source text through js_parser.Parse, on raw operation sequences and on the full canMergeSymbols table",
+    scope="internal/js_parser/js_parser.go: pushScopeForParsePass / popScope, declareSymbol + canMergeSymbols (whole table, non-TS), the arguments step of parseFn, the use-strict and class strictness steps, prepareForVisitPass (ESM strictness, hoistSymbols in full incl. sloppy block functions and the CommonJS symbols), pushScopeForVisitPass, findSymbol (with / eval flags, unbound symbols), the class name scope + lowerClass inner-name merge, the block-function relinking of visitStmts, labels, incl. the MustNotBeRenamed loops of the two with/arguments fix commits in hoistSymbols and findSymbol, relinkFns incl. the hoisted-variable condition and the function flag of fix 984c8f5 — against Spec/JsScopes.lean (VarDeclaredNames / LexicallyDeclaredNames / early errors / Annex B.3.2-B.3.4 / ResolveBinding). The kernel compares the whole scope tree, symbol table (kind, name, link, MustNotBeRenamed), reference list and sorted error list, on generated source text through js_parser.Parse, on raw operation sequences and on the full canMergeSymbols table",
     assumptions=["scope: one file, no TypeScript, no JSX; names are small integers; errors compared as a sorted multiset; use counts enter only through `the inner class name is referenced`; dead-code elimination that drops references is avoided by the generator; Spec early errors validated against Node 20 by the package author (4523/4523); flat = var/function declarations only at the top level of a function/script/module, no class declaration, nothing declares `arguments`"])
 
 # jsonrt (C13 / C01 / C16): the JSON parser and the lexer's JSON mode
